@@ -33,7 +33,8 @@ LONS = LONS_SEAM + [i * 7.5 + 0.123 for i in range(48)]
 LATS = [90.0, 89.999999, 89.9999, 89.99, 89.9, 89.0, 85.0, 66.56, 45.0, 23.44, 1e-6, 1e-9]
 LATS = sorted(set(LATS + [-x for x in LATS] + [0.0]))
 OBLS = [0.0, 1e-6, 10.0, 23.4392911, 30.0]
-PHIS = [90.0, 89.9, 66.5, 38.92, 23.0, 1e-7, 0.0, -23.0, -38.92, -66.5, -89.9, -90.0]
+PHIS = [90.0, 89.9999999, 89.99999, 89.999, 89.9, 66.5, 38.92, 23.0, 1e-7, 0.0, -23.0, -38.92, -66.5, -89.9, -89.999,
+        -89.99999, -89.9999999, -90.0]
 
 
 def bound(tier):
@@ -444,6 +445,43 @@ def run_shared(block, ctx):
     ctx.sample(block[0])
 
 
+# -- position angle of a body standing exactly at a celestial pole ---------------------------------
+
+def check_pa_pole(case):
+    """The position angle of body 1 as seen from body 2 is measured from the direction of the north
+    pole: a body 1 AT the north pole has position angle 0 from everywhere, at the south pole 180.
+    (Angle(90).rad() is 6e-17 rad short of the pole, hence the tolerance 2e-14 / cos(dec2).)"""
+    lo1, pole, lo2, la2 = case["lon1"], case["pole"], case["lon2"], case["lat2"]
+    out = []
+    try:
+        p = relative_position_angle(Angle(lo1), Angle(pole), Angle(lo2), Angle(la2))._deg
+    except Exception as ex:
+        return [("pa_exception", "relative_position_angle raised %r for %r" % (ex, case), None)]
+    exp = 0.0 if pole > 0 else 180.0
+    tol = max(TOL, 2e-14 / max(1e-12, math.cos(math.radians(la2))))
+    dv = abs((p - exp + 180.0) % 360.0 - 180.0)
+    if dv > tol:
+        out.append(("pa_pole", "relative_position_angle of a body at the pole %r (lon %r) seen from (%r, %r) = %r, "
+                    "expected %r" % (pole, lo1, lo2, la2, p, exp), dv))
+    return out
+
+
+def pa_pole_cases():
+    return [{"lon1": lo1, "pole": pole, "lon2": lo2, "lat2": la2}
+            for pole in (90.0, -90.0) for lo1 in (0.0, 41.0, 180.0, 359.9)
+            for lo2 in (0.0, 77.0, 200.0, 221.0, 359.9) for la2 in (89.9999, 89.0, 60.0, 23.4, 0.0, -45.0, -89.99)]
+
+
+def run_pa_pole(block, ctx):
+    for case in block:
+        ctx.evals += 1
+        ctx.nt_count += 1
+        for site, msg, dev in check_pa_pole(case):
+            ctx.viol(case, msg, dev=dev, site=site)
+        ctx.outcome((case["pole"], case["lat2"]))
+    ctx.sample(block[0])
+
+
 def clauses(tier):
     return [
         Clause("directions", chunks(dir_cases(tier), 64), run_dirs,
@@ -454,6 +492,8 @@ def clauses(tier):
                lambda c: [m for _, m, _ in check_pairs(c)], floor=10),
         Clause("metric", chunks(metric_cases(tier), 16), run_metric,
                lambda c: [m for _, m, _ in check_metric(c)], floor=100),
+        Clause("pa_pole", chunks(pa_pole_cases(), 4), run_pa_pole,
+               lambda c: [m for _, m, _ in check_pa_pole(c)], floor=100),
         Clause("circle", chunks(circle_cases(), 8), run_circle,
                lambda c: [m for _, m, _ in check_circle(c)], floor=100),
         # straight_line() is not part of the C05 statement: its collinear-input
